@@ -1,7 +1,10 @@
 ---------------------------- MODULE MCPeerInput ----------------------------
 (* Pipeline A of C09: (1) facts about the generator of PeerInput.tla - every table     *)
 (* state of every stateful handler is reached by a generated setup, every shape of      *)
-(* every stanza occurs in every such state, labels are unique, every item of every      *)
+(* every stanza occurs in every such state and in every configuration of the handler    *)
+(* table, alone and twice in a row followed by the helper call of its handler, the      *)
+(* bytestream with unflushed bytes is reached for both carriers and consistent with     *)
+(* the local state of the run protocol, labels are unique, every item of every          *)
 (* sequence is a known stanza or application action; (2) the run protocol: TypeOK,      *)
 (* C09_NoFeedAfterReturn and, under the fairness the property demands of the library,   *)
 (* C09_Terminates.                                                                      *)
@@ -12,6 +15,8 @@ ASSUME C09_LabelsUnique
 ASSUME C09_ItemsKnown
 ASSUME C09_EveryShapeInEveryState
 ASSUME C09_EveryTargetCovered
+ASSUME C09_EveryConfigCrossed
+ASSUME C09_LocalStateCrossed
 ASSUME PrintT(<<"GRAMMAR", Cardinality(Targets), Cardinality(Alphabet), Cardinality(SeqScenarios),
                 Cardinality(Helpers), Cardinality(ReplyScenarios)>>)
 ASSUME PrintT(<<"SETUPS", [f \in Stateful |-> Cardinality(SetupsOK(f, Depth(f)))]>>)
